@@ -112,6 +112,14 @@ func runC09(c *Ctx) {
 			}
 		}
 	}
+	if c.Level("D2x:inside-definitions") {
+		for _, a := range at {
+			for _, use := range []string{"('a' 'b') = v p", "'a' p", "at least 0 p", "p p", "maybe ('a' = v) p v", "{p} = s s"} {
+				unitSrc("set p to pattern "+render(a)+"\nfind all "+use, tx)
+				unitSrc("set q to pattern "+render(a)+"\nset p to pattern 'a' q\nfind all "+use, tx)
+			}
+		}
+	}
 	if c.Level("fixed") {
 		long := append(texts("ab \n", 4), "a\r\n", "ab ab\nab", "aaaa", "a,b\n,\n")
 		for _, f := range c09Fixed {
